@@ -21,10 +21,11 @@ SRCS = ["librfn/fibre.c", "librfn/messageq.c", "librfn/list.c", "librfn/util.c"]
 
 MAIN = {"MP4": [0, 1, 2, 3], "MP5": [0, 1, 2, 3, 4]}
 ISRS = {"IP_A": [(1, 7), (0, 3)], "IP_B": [(1, 7), (1, 8)], "IP_C": [(0, 2), (0, 1)], "IP_D": [(1, 7), (0, 2), (1, 8)],
-        "IP_E": [(1, 7), (1, 8), (1, 9)], "IP_F": [(0, 3), (1, 7)], "IP_G": [(0, 2), (0, 2)]}
+        "IP_E": [(1, 7), (1, 8), (1, 9)], "IP_F": [(0, 3), (1, 7)], "IP_G": [(0, 2), (0, 2)], "IP_H": [(0, 3), (0, 1)]}
+SRUN = {"hi", "ht"}
 NOSLEEPER = {"fi", "ft", "gi"}
 CFGS_QUICK = [("ai", "MP4", "IP_A"), ("at", "MP4", "IP_A"), ("bi", "MP4", "IP_B"), ("bt", "MP4", "IP_B"), ("ci", "MP4", "IP_C"),
-              ("ct", "MP4", "IP_C"), ("di", "MP5", "IP_D"), ("fi", "MP5", "IP_F"), ("ft", "MP5", "IP_F"), ("gi", "MP4", "IP_G")]
+              ("ct", "MP4", "IP_C"), ("di", "MP5", "IP_D"), ("fi", "MP5", "IP_F"), ("ft", "MP5", "IP_F"), ("gi", "MP4", "IP_G"), ("hi", "MP4", "IP_H"), ("ht", "MP4", "IP_H")]
 CFGS_THOROUGH = CFGS_QUICK + [("dt", "MP5", "IP_D"), ("ei", "MP5", "IP_E")]
 
 
@@ -35,10 +36,10 @@ def conv(name, args):
     return "S %d" % (args[0] if args else 0)
 
 
-def reset_line(mp, ip, sleeper=1, rolls=(0, 0)):
+def reset_line(mp, ip, sleeper=1, rolls=(0, 0), srun=0):
     # rolls: messages that went through the event queue / the atomic run queue before the schedule starts (cursor positions)
     return "Reset 2 2 %d %d %s %d %s %d %d" % (sleeper, len(MAIN[mp]), " ".join(map(str, MAIN[mp])), len(ISRS[ip]),
-                                                " ".join("%d %d" % x for x in ISRS[ip]), rolls[0], rolls[1])
+                                                " ".join("%d %d" % x for x in ISRS[ip]), rolls[0], rolls[1]) + (" %d 0" % srun)
 
 
 def build(run, flags=(), name="irq_drv"):
@@ -63,7 +64,7 @@ def run_irq(run, for_c03=False, exe=None, cfgs=None, nrandom=None, tagp="", vali
         paths, total = edge_cover(inits, edges)
         run.extra.setdefault("graph_edges", {})[tagp + name] = total
         rolls = [(0, 0), (259, 517), (1, 7), (514, 263)][len(traces) % 4]
-        script = labels_to_script(paths, reset_line=reset_line(mp, ip, 0 if name in NOSLEEPER else 1, rolls), conv=conv)
+        script = labels_to_script(paths, reset_line=reset_line(mp, ip, 0 if name in NOSLEEPER else 1, rolls, 1 if name in SRUN else 0), conv=conv)
         tr = run.path("%sfirq-cover-%s.ndjson" % (tagp, name))
         exec_script(run, exe, [], script, tr, "irq-edge-cover-" + name)
         traces.append(tr)
